@@ -31,7 +31,7 @@ type c12case struct {
 
 func main() {
 	rep := kit.NewReport("C12", "exploration",
-		"every subset of size <=3 (thorough 4) of 17 wrapping directive lines (at most one line per directive) around a scripted innermost handler x 90 inner behaviours (return any of 7 statuses with/without error and without writing; write any of 4 statuses x 3 bodies in 1 or 2 writes with optional flush then return (0, nil|err); panic before/after writing) x 4 paths x 2 Accept-Encoding, followed by a plain request after every panic; strict response writer counts header commits; distinct_nontrivial = outcome classes")
+		"every subset of size <=3 (thorough 4) of 18 wrapping directive lines (at most one line per directive) around a scripted innermost handler x 90 inner behaviours (return any of 7 statuses with/without error and without writing; write any of 4 statuses x 3 bodies in 1 or 2 writes with optional flush then return (0, nil|err); panic before/after writing) x 4 paths x 2 Accept-Encoding, followed by a plain request after every panic; strict response writer counts header commits; distinct_nontrivial = outcome classes")
 	kit.Init()
 	kit.RegisterProbe()
 	kit.Log.Off.Store(true)
@@ -51,6 +51,7 @@ func main() {
 		"errors",
 		"errors {\n\t\t404 " + p404 + "\n\t\t* " + pgen + "\n\t}",
 		"errors visible",
+		"errors {\n\t\t404 " + root + "\n\t}", // (the error page is a directory)
 		"templates",
 		"mime .html text/html",
 		"status 418 /teapot",
@@ -152,7 +153,7 @@ func main() {
 			real = kit.NewRealServer(srv)
 			defer real.Close()
 		}
-		customPages := strings.Contains(has["errors"], "404 ")
+		customPages := strings.Contains(has["errors"], "404.html") // (not the variant whose page is a directory: the default text is right there)
 		visible := strings.Contains(has["errors"], "visible")
 		for _, b := range behaviours {
 			for _, p := range paths {
